@@ -37,6 +37,8 @@ VARIANTS = [
     ('shoc standard', {'conv': 'shoc_standard'}, [], 'ShocStandard'),
     ('shoc standard no y_back', {'conv': 'shoc_standard'}, [('drop_var', 'y_back')], 'CFGrid2D'),
     ('shoc standard no x_grid', {'conv': 'shoc_standard'}, [('drop_var', 'x_grid')], 'CFGrid2D'),
+    ('shoc simple with 1-D station positions listed first', {'conv': 'shoc_simple'}, [('prepend_stations', ['station_lat', 'station_lon'])], 'ShocSimple'),
+    ('shoc simple with a 1-D station latitude listed first', {'conv': 'shoc_simple'}, [('prepend_stations', ['station_lat'])], 'ShocSimple'),
     ('ugrid', {'conv': 'ugrid'}, [], 'UGrid'),
     ('ugrid edges 1-based', {'conv': 'ugrid', 'tables': ['edge_node'], 'start_index': 1}, [], 'UGrid'),
     ('ugrid conventions list', {'conv': 'ugrid'}, [('set_global', 'Conventions', 'CF-1.6, UGRID-1.0')], 'UGrid'),
@@ -67,6 +69,14 @@ def build(spec, mods):
             ds.attrs.pop(m[1], None)
         elif m[0] == 'set_global':
             ds.attrs[m[1]] = m[2]
+        elif m[0] == 'prepend_stations':
+            # 1-D station positions stored ahead of everything else (first in dataset.variables)
+            first = {n: xarray.DataArray(numpy.array([-20.5, -19.25, -18.0]) if 'lat' in n else numpy.array([150.5, 151.25, 152.0]), dims=['station'],
+                                         attrs={'units': 'degrees_north' if 'lat' in n else 'degrees_east'}) for n in m[1]}
+            rebuilt = xarray.Dataset(data_vars={**first, **{k: ds[k].variable for k in ds.data_vars}}, coords={k: ds[k].variable for k in ds.coords}, attrs=dict(ds.attrs))
+            for k in ds.variables:
+                rebuilt[k].encoding.update(ds[k].encoding)
+            ds = rebuilt
     return ds
 
 
